@@ -62,6 +62,11 @@ MUTANTS = [
     ("watch-compare-order-harmless", "C03", "find_changed", "mypy/fswatcher.py", "if st.st_size != old.st_size or new_hash != old.hash:", "if new_hash != old.hash or st.st_size != old.st_size:", "pass"),
     ("clear-errors-blocker-flag-lost", "C03", "clear", "mypy/errors.py", "                    new_errors.append(info)\n                    has_blocker |= info.blocker", "                    new_errors.append(info)\n                    has_blocker = info.blocker", "violation"),
     ("clear-errors-once-message-kept", "C03", "clear", "mypy/errors.py", "                elif info.only_once:\n                    self.only_once_messages.remove(info.message)", "                elif info.only_once and info.blocker:\n                    self.only_once_messages.remove(info.message)", "violation"),
+    ("crawl-wrong-base-returned", "C18", "crawl_up_helper", "mypy/find_sources.py", "            mod_prefix, base_dir = self.crawl_up_dir(parent)\n            return module_join(mod_prefix, name), base_dir", "            mod_prefix, base_dir = self.crawl_up_dir(parent)\n            return module_join(mod_prefix, name), parent", "violation"),
+    ("crawl-namespace-identifier-check-dropped", "C18", "crawl_up_helper", "mypy/find_sources.py", "if not name or not parent or not name.isidentifier():", "if not name or not parent:", "violation"),
+    ("crawl-namespace-flag-ignored", "C18", "crawl_up_helper", "mypy/find_sources.py", "        if not self.namespace_packages:\n            return None", "        if not self.namespace_packages and not name:\n            return None", "violation"),
+    ("crawl-init-module-not-collapsed", "C18", "paths.crawl_up$", "mypy/find_sources.py", '        if module_name == "__init__":\n            return parent_module, base_dir', '        if module_name == "__init__" and not parent_module:\n            return parent_module, base_dir', "violation"),
+    ("strip-py-order-swapped-harmless", "C18", "strip_py", "mypy/find_sources.py", "    for ext in PY_EXTENSIONS:\n        if arg.endswith(ext):\n            return arg[: -len(ext)]\n    return None", "    for ext in reversed(PY_EXTENSIONS):\n        if arg.endswith(ext):\n            return arg[: -len(ext)]\n    return None", "pass"),
     ("enabled-parent-check-dropped", "C13", "is_error_code_enabled", "mypy/errors.py", "elif error_code.sub_code_of is not None and error_code.sub_code_of in current_mod_disabled:\n            return False", "elif error_code.sub_code_of is not None and error_code.sub_code_of in current_mod_enabled:\n            return False", "violation"),
 ]
 
